@@ -1,49 +1,40 @@
 /-
-  C12 — Serialisation and copying reproduce the tree exactly (modelled fragment: `serde.dump` / `serde.load`).
+  C12 — Serialisation and copying reproduce the tree exactly (modelled: `serde.dump` / `serde.load` / `_load` incl. the
+  `{"__expr__": …}` meta entries, `Expression.set` / `append` / `_set_parent` with hash invalidation, `__reduce__`).
   Only property theorems, non-vacuity examples and witnesses live here; lemmas are in Proofs/Serde.lean.
 
-  Reading guide: `Val` is a syntax tree as `dump` sees it (class, `.type`, comments, `_meta`, ordered args whose
-  values are nodes, DType members, raw JSON scalars or lists of those).  `t.norm` erases exactly what no payload
-  records: args whose value is `None`, args whose value is `[]`, and `comments == []` (becomes `None`).  These are
-  invisible to `==`, `.sql()`, `.type`, `.comments or []`, `.meta`.  All statements are for every tree of the model
-  (no size bound); pickling is `load(dump(t))` by `Expression.__reduce__` (checked by the translator).
+  Reading guide: `Val` is a syntax tree as `dump` sees it (class, `.type`, comments, `_meta` whose values are raw JSON
+  values or Expressions, ordered args whose values are nodes, DType members, raw JSON scalars or lists of those).
+  `t.norm` erases exactly what no payload records: args whose value is `None`, args whose value is `[]`, and
+  `comments == []` (becomes `None`).  These are invisible to `==`, `.sql()`, `.type`, `.comments or []`, `.meta`.
+  All statements are for every tree of the model (no size bound).
 -/
 import SqlglotModel.Proofs.Serde
+import SqlglotModel.Proofs.SerdeCopy
 import SqlglotModel.Generated.C12
 
 namespace SqlglotModel.Properties.C12
 open SqlglotModel.Serde
 
 /-- the iterative explicit-stack loop of `dump` produces the recursive pre-order flattening: node `i`'s children
-    carry parent index `i`, their arg key and the array flag, in `args` order -/
+    carry parent index `i`, their arg key and the array flag, in `args` order; type annotations and Expression-valued
+    meta entries are nested dumps -/
 theorem dump_preorder (t : Val) : dump t = flat t none 0 := dump_eq_flat t
 
 /-- the object graph `load` builds from a dump, cell by cell: every node with its final `args` dict (refs to the
-    pre-order positions of its children) and its parent link `(parent, arg_key, index)` -/
+    pre-order positions of its children), its parent link `(parent, arg_key, index)` and no cached hash -/
 theorem load_arena_dump (t : Val) (hwf : t.WF) (hobj : t.isObj = true) :
     loadArena (dump t) = some (seg t none 0) := by
-  rw [dump_eq_flat]
-  cases t with
-  | node cls ty c m args =>
-    simp only [Val.WF] at hwf
-    obtain ⟨hcls, hty, hnd, hargs⟩ := hwf
-    have hT := loadTy_flatTy ty hty
-    have hB := load_flatArgs args hargs hnd [Cell.node cls (normOpt ty) (normC c) m [] none] 0
-      cls (normOpt ty) (normC c) m [] none (by simp) (by simp [keysS])
-    simp only [List.length_singleton] at hB
-    simp [flat, loadArena, nodeP, mkRoot, mkObj, hcls, hT, eIndex, eKey, eArr, hB, seg]
-  | dtype s => simp [flat, loadArena, dtypeP, mkRoot, mkObj, loadList, seg]
-  | raw r => simp [Val.isObj] at hobj
+  rw [dump_eq_flat]; exact loadArena_flat t hwf hobj
 
-/-- **load ∘ dump**: for every well-formed tree (typed, commented, with meta, nested lists, `False` vs absent …)
-    loading its dump succeeds and reads back the tree, up to `norm` -/
+/-- **load ∘ dump**: for every well-formed tree (typed, commented, with meta — also Expression-valued meta —, nested
+    lists, `False` vs absent …) loading its dump succeeds and reads back the tree, up to `norm` -/
 theorem load_dump (t : Val) (hwf : t.WF) (hobj : t.isObj = true) : load (dump t) = some (some t.norm) := by
   rw [dump_eq_flat]; exact load_flat_root t hwf hobj
 
 /-- the tree read back from the closed-form arena is the normalised tree (the `reify` half of `load_dump`) -/
 theorem reify_arena (t : Val) : reify (seg t none 0) t.cnt 0 = some t.norm := by
   simpa using reify_seg t none [] [] 0 t.cnt rfl (Nat.le_refl _)
-
 
 /-- `norm` is a projection … -/
 theorem norm_idem (t : Val) : t.norm.norm = t.norm := SqlglotModel.Serde.norm_idem t
@@ -58,31 +49,91 @@ theorem load_dump_normal (t : Val) (hwf : t.WF) (hobj : t.isObj = true) (hn : t.
   have := load_dump t hwf hobj
   rwa [hn] at this
 
-/-- parent links: the cell `load` creates for a node child carries the `(parent, arg_key, index)` it was attached with
-    (`index` = position in the list for `append`, `None` for `set`); see `seg`, `segArg`, `segVals` for where each
-    child sits.  With `load_arena_dump` this is "load restores the parent links". -/
-theorem seg_head_link (cls : String) (ty : Option Val) (c : Comments) (m : Meta) (args : List Arg)
-    (l : Option Link) (i : Nat) :
-    (seg (.node cls ty c m args) l i)[0]? =
-      some (.node cls (normOpt ty) (normC c) m (slotsOf args (i + 1)) l) := by
-  simp [seg]
+/-- **parent links restored** (the C08 invariant for rebuilt trees): in the object graph `load` builds from a dump,
+    every Expression stored under `args[k]` of node `j` has `parent = j, arg_key = k, index = None`, every Expression
+    stored at `args[k][n]` has `parent = j, arg_key = k, index = n`, and no ref dangles -/
+theorem load_links (t : Val) (hwf : t.WF) (hobj : t.isObj = true) :
+    ∃ A, loadArena (dump t) = some A ∧ A.length = t.cnt ∧ ∀ j, j < A.length → cellOK A j := by
+  refine ⟨seg t none 0, load_arena_dump t hwf hobj, seg_length t none 0, ?_⟩
+  intro j hj
+  rw [seg_length] at hj
+  exact links_closed_form t j hj
+
+/-- **every payload list `load` accepts** (not only dumps: mutated, hand-written, hostile ones) yields an object graph
+    in which no node has a cached hash, every child ref points forwards and inside the graph (no dangling index, no
+    cycle) and every parent index points backwards -/
+theorem load_no_dangling (ps : List Payload) (A : List Cell) (h : loadArena ps = some A) : AInv A :=
+  loadArena_inv ps A h
+
+/-- **every dumped payload is a JSON value**: a dict with `str` keys whose values are JSON scalars, lists of payload
+    dicts (type annotations, `__expr__` meta entries), lists of strings (comments), or str-keyed dicts (meta) -/
+theorem dump_json (K : Keys) (t : Val) : JsonValue (.list (payloadsToPy K (dump t))) :=
+  .list _ (payloads_json K (dump t))
+
+/-- **pickle**: `__reduce__` hands pickle `(load, (dump(self),))` and no state, so unpickling is `load ∘ dump` … -/
+theorem pickle_roundtrip (t : Val) (h : Option Nat) (hwf : t.WF) (hobj : t.isObj = true) :
+    unpickle (reduce false t h) = some (some t.norm) := by
+  simpa [unpickle, reduce] using load_dump t hwf hobj
+
+/-- … and whatever hash the pickled tree had cached, no node of the unpickled tree carries a cached hash (a later
+    `set`/`append` below the root therefore cannot leave a stale one) -/
+theorem unpickled_no_hash (t : Val) (h : Option Nat) (A : List Cell)
+    (hA : unpickleArena (reduce false t h) = some A) :
+    ∀ (j : Nat) cls ty c m args l hsh, A[j]? = some (Cell.node cls ty c m args l hsh) → hsh = none := by
+  intro j cls ty c m args l hsh hj
+  have hl : loadArena (dump t) = some A := by
+    simp only [unpickleArena, reduce] at hA
+    cases hd : loadArena (dump t) with
+    | none => simp [hd] at hA
+    | some B => simp [hd] at hA; rw [hA]
+  have := loadArena_inv _ _ hl j _ hj
+  simp only [CellInv] at this
+  exact this.1
+
+/-- why the 2-tuple matters: were the cached hash passed as pickle state (3-tuple), the unpickled root would carry it -/
+theorem stale_hash_witness (cls : String) (h : Nat) (hc : cls ≠ dataTypeCls) :
+    unpickleArena (reduce true (.node cls none none none []) (some h)) =
+      some [.node cls none none none [] none (some h)] := by
+  simp [unpickleArena, reduce, dump_eq_flat, flat, flatTy, flatMeta, flatArgs, nodeP, eIndex, eKey, eArr, normC,
+    loadArena, mkRoot, mkObj, hc, loadTy, loadMeta, loadList, Cell.setHash]
+
+/-- **`copy()`**: the iterative `__deepcopy__` (explicit stack of (source node, empty copy) pairs, children attached
+    through `set` / `append` with their hash invalidation, `_type` and Expression-valued meta copied by nested calls)
+    builds an object graph that reads back as exactly the source tree — structure, types, comments, meta, and every
+    arg including `None` values and empty lists — whatever hashes the source had cached -/
+theorem copy_eq (hashOf : Val → Option Nat) (t : Val) (hwf : t.WF) (hn : t.isNode = true) :
+    copy hashOf t = some t := copy_eq_real hashOf t hwf hn
 
 /-- facts re-extracted from sqlglot/serde.py and expressions/core.py on every run: the eight payload keys are pairwise
     distinct (a collision would make two payload fields overwrite each other), the DType marker is the modelled one,
-    the guards of dump/load/_load are the modelled ones, and `__reduce__` delegates pickling to load ∘ dump.
-    (finite decision, decided completely) -/
+    the guards and the meta comprehensions of dump/load/_load are the modelled ones, and `__reduce__` returns exactly
+    `(load, (dump(self),))`. (finite decision, decided completely) -/
 theorem generated_ok :
     SqlglotModel.Generated.C12.allKeys.Nodup ∧ SqlglotModel.Generated.C12.dataType = dataTypeCls ∧
     SqlglotModel.Generated.C12.shapeAsModelled = true ∧ SqlglotModel.Generated.C12.reduceViaSerde = true := by
   decide +kernel
 
+/-- the key constants of the current source, as the `Keys` of `dump_json` -/
+def genKeys : Keys where
+  index := SqlglotModel.Generated.C12.keyIndex
+  key := SqlglotModel.Generated.C12.keyArgKey
+  isArr := SqlglotModel.Generated.C12.keyIsArray
+  cls := SqlglotModel.Generated.C12.keyClass
+  ty := SqlglotModel.Generated.C12.keyType
+  comments := SqlglotModel.Generated.C12.keyComments
+  mta := SqlglotModel.Generated.C12.keyMeta
+  value := SqlglotModel.Generated.C12.keyValue
+  metaExpr := SqlglotModel.Generated.C12.keyMetaExpr
+
 /-! ### non-vacuity and witnesses -/
 
-/-- a typed, commented tree with meta, a `False` arg, a `None` arg, an empty list, a list holding `None`, a DType and
-    a nested list of scalars -/
+/-- a typed, commented tree with meta (one entry an Expression), a `False` arg, a `None` arg, an empty list, a list
+    holding `None`, a DType and a nested list of scalars -/
 def sample : Val :=
   .node "Select" (some (.node "DataType" none none none [.one "this" (.dtype "INT"), .one "nested" (.raw (.bool false))]))
-    (some ["c"]) (some [("line", .int 1), ("flag", .bool true)])
+    (some ["c"])
+    (some [.raw "line" (.int 1), .raw "flag" (.bool true),
+           .expr "query_type" (.node "DataType" none (some []) none [.one "this" (.dtype "STRUCT"), .one "kind" (.raw .null)])])
     [.many "expressions"
         [.node "Column" none (some []) none
             [.one "this" (.node "Identifier" none none (some []) [.one "this" (.raw (.str "a")), .one "quoted" (.raw (.bool false))]),
@@ -93,14 +144,30 @@ def sample : Val :=
      .one "distinct" (.raw (.bool false)),
      .one "limit" (.raw .null)]
 
-example : sample.WF ∧ sample.isObj = true := by
-  simp [sample, Val.WF, wfOpt, wfArgs, Arg.WF, wfVals, keysOf, Arg.key, Val.isObj, dataTypeCls]
+theorem sample_wf : sample.WF ∧ sample.isObj = true := by
+  simp [sample, Val.WF, wfOpt, wfMeta, wfMetaL, MetaE.WF, wfArgs, Arg.WF, wfVals, keysOf, Arg.key, Val.isObj,
+    Val.isNode, dataTypeCls]
 
-example : load (dump sample) = some (some sample.norm) :=
-  load_dump sample (by simp [sample, Val.WF, wfOpt, wfArgs, Arg.WF, wfVals, keysOf, Arg.key, Val.isObj, dataTypeCls]) rfl
+example : load (dump sample) = some (some sample.norm) := load_dump sample sample_wf.1 sample_wf.2
+
+example : ∃ A, loadArena (dump sample) = some A ∧ AInv A := by
+  obtain ⟨A, hA, _⟩ := load_links sample sample_wf.1 sample_wf.2
+  exact ⟨A, hA, load_no_dangling _ _ hA⟩
+
+example : JsonValue (.list (payloadsToPy genKeys (dump sample))) := dump_json genKeys sample
+
+example : copy (fun _ => some 7) sample = some sample := copy_eq _ sample sample_wf.1 rfl
 
 /-- the normal form really differs from the tree (the theorem is not about the identity) -/
 example : sample.norm.size < sample.size := by decide +kernel
+
+/-- `JsonValue` is not trivially true: an Expression object inside a dict is refused -/
+example : ¬ JsonValue (.dict [(.str "query_type", .opaque "DataType")]) := by
+  intro h
+  cases h with
+  | dict _ _ hv =>
+    have := hv (.str "query_type", .opaque "DataType") (by simp)
+    cases this
 
 /-- the distinct-keys hypothesis of `load_dump` is needed: two args with one key (impossible in a Python dict) are
     dumped as two payloads and `set` overwrites the first with the second -/
@@ -108,8 +175,8 @@ theorem duplicate_keys_witness :
     load (dump (Val.node "X" none none none [.one "a" (.raw (.int 1)), .one "a" (.raw (.int 2))])) =
       some (some (Val.node "X" none none none [.one "a" (.raw (.int 2))])) := by
   rw [dump_eq_flat]
-  simp [flat, flatTy, flatArgs, flatArg, Val.isNull, nodeP, rawP, eIndex, eKey, eArr, normC,
-    load, mkRoot, mkObj, loadTy, dataTypeCls, loadList, mkCell, pIndex, pKey, pArr, attach, linkArgs,
+  simp [flat, flatTy, flatMeta, flatArgs, flatArg, Val.isNull, nodeP, rawP, eIndex, eKey, eArr, normC,
+    load, mkRoot, mkObj, loadTy, loadMeta, dataTypeCls, loadList, mkCell, pIndex, pKey, pArr, attach, clearUp, linkArgs,
     Cell.isRawNull, setKey, Cell.withLink, reify, reifyCell, reifySlots, reifySlot]
 
 end SqlglotModel.Properties.C12
